@@ -10,6 +10,20 @@ from .types import JSON, Evaluatable, MaybeEvaluatable, Options
 A = TypeVar("A", covariant=True)
 
 
+def _without(options: Options, keys: Iterable[str]) -> Options:
+    """A copy of the options without the given dotted keys (the input is not modified)."""
+    result = dict(options)
+    for key in keys:
+        head, _, rest = key.partition(".")
+        if head not in result:
+            continue
+        if not rest:
+            del result[head]
+        elif isinstance(result[head], dict):
+            result[head] = _without(result[head], [rest])
+    return result
+
+
 class Iter(Evaluatable[Iterable[A]]):
     """A class representing multiple evaluatables as an iterable.
 
@@ -135,9 +149,10 @@ class Map(Evaluatable[Iterable[Tuple[Dict[str, JSON], A]]]):
                 *(iterable.explain(options) for iterable in self.iterables.values()),
             )
         except EvaluationError:
-            return (
-                self.evaluatable.explain(options) - self.iterables.keys()
-            ) | set().union(
+            # the mapped keys are overridden for the evaluatable: their values in the
+            # caller's options (and what those refer to) are not dependencies
+            outer = _without(options or {}, self.iterables.keys())
+            return (self.evaluatable.explain(outer) - self.iterables.keys()) | set().union(
                 *(iterable.explain(options) for iterable in self.iterables.values())
             )
 
